@@ -1,5 +1,6 @@
 // Metadata properties (C14) and data frames (C15): operations and models.
 #include "engine.hpp"
+#include <algorithm>
 #include <cstring>
 #include <cmath>
 #include <limits>
@@ -116,14 +117,16 @@ int World::exec_meta(const Op &op) {
             else if (variant == 2) { v = rand_values(r, dt, 1, 8); v.push_back(rand_variant(r, other_type(r, dt))); arg_class += ",mixed-types"; }
             else if (variant == 3) { arg_class += ",empty"; }
             else v = rand_values(r, dt, 1, 64);
+            if (variant != 1 && variant != 2 && m) must_succeed = "C14.values";
             p.values(v);
+            must_succeed.clear();
             if (variant == 1 || variant == 2) { fail("C14.type-reject", "Property::values accepted values whose type differs from the property's type"); return 0; }
             if (m) { m->specified = true; m->values.clear(); for (auto &x : v) m->values.push_back(variant_str(x)); }
             cnt.inc("prop.assign"); cnt.inc("prop.assign.len" + std::string(v.size() == 0 ? "0" : v.size() < 8 ? "<8" : ">=8"));
             return 0;
         }
-        case OP_prop_delvalues: p.deleteValues(); if (m) { m->specified = true; m->values.clear(); } cnt.inc("prop.clear"); return 0;
-        case OP_prop_none: p.values(nix::none); if (m) { m->specified = true; m->values.clear(); } cnt.inc("prop.clear"); return 0;
+        case OP_prop_delvalues: must_succeed = "C14.values"; p.deleteValues(); must_succeed.clear(); if (m) { m->specified = true; m->values.clear(); } cnt.inc("prop.clear"); return 0;
+        case OP_prop_none: must_succeed = "C14.values"; p.values(nix::none); must_succeed.clear(); if (m) { m->specified = true; m->values.clear(); } cnt.inc("prop.clear"); return 0;
         case OP_prop_unit: {
             int variant = ((unsigned) a[2]) % 6;
             if (variant == 0) { p.unit(nix::none); if (m) m->has_unit = false; return 0; }
@@ -224,7 +227,9 @@ int World::exec_frame(const Op &op) {
             else if (a[5] == 1) n = (size_t) r.range(257, 420);                              // "long frame" runs (see gen.cpp)
             else if (r.chance(1, 25)) n = (size_t) r.range(10, 300);                         // more than one chunk
             else if (r.chance(1, 100)) n = (size_t) ((1 << r.range(8, 9)) + r.range(-1, 1));   // next to a power of two
+            must_succeed = "C15.rows";
             df.rows(n);
+            must_succeed.clear();
             std::vector<std::string> def; for (auto &c : m.cols) def.push_back(default_cell(c.dtype));
             m.cells.resize(n, def);
             cnt.inc(n < nrows ? "frame.shrink" : "frame.grow");
@@ -238,7 +243,9 @@ int World::exec_frame(const Op &op) {
             for (auto &c : m.cols) { Variant x = rand_variant(r, c.dtype); v.push_back(x); vs.push_back(variant_str(x)); }
             if (invalid == 2) { v.pop_back(); arg_class += ",too-few-values"; }
             if (invalid == 3) { v[0] = rand_variant(r, other_type(r, m.cols[0].dtype)); arg_class += ",wrong-cell-type"; }
+            if (!(invalid >= 1 && invalid <= 3)) must_succeed = "C15.cell";
             df.writeRow(row, v);
+            must_succeed.clear();
             if (invalid >= 1 && invalid <= 3) { frame.erase(id); return 0; }   // accepted out-of-contract input: not predicted
             m.cells[row] = vs;
             cnt.inc("frame.write_row");
@@ -257,8 +264,16 @@ int World::exec_frame(const Op &op) {
                 // a Cell built from an index carries no name and vice versa; writeCells resolves by ... the backend's rule
                 upd.push_back(std::make_pair(c, variant_str(x)));
             }
+            // the cells reach writeCells the way programs build such lists: appended, or assigned into a pre-sized vector from
+            // temporaries, reversed, swapped
+            int build = r.range(0, 3);
+            if (build == 1 && cells.size() > 1) { std::reverse(cells.begin(), cells.end()); arg_class += ",reversed"; }
+            else if (build == 2) { std::vector<Cell> filled(cells.size()); for (size_t i = 0; i < cells.size(); i++) filled[i] = Cell(cells[i]); cells.clear(); cells.resize(filled.size()); for (size_t i = 0; i < filled.size(); i++) cells[i] = std::move(filled[i]); arg_class += ",assigned"; }
+            else if (build == 3 && cells.size() > 1) { std::swap(cells[0], cells[cells.size() - 1]); arg_class += ",swapped"; }
+            must_succeed = "C15.cell";
             if (cells.size() == 1 && r.chance(1, 2)) { size_t c = upd[0].first; Variant x = cells[0]; df.writeCell(row, (unsigned) c, x); arg_class += ",writeCell"; }
             else { df.writeCells(row, cells); arg_class += ",writeCells"; }
+            must_succeed.clear();
             for (auto &u : upd) m.cells[row][u.first] = u.second;
             cnt.inc("frame.write_cell");
             return 0;
@@ -278,6 +293,7 @@ int World::exec_frame(const Op &op) {
             size_t give = n + (r.chance(1, 3) ? r.below(3) : 0);   // vector may be longer than count
             for (size_t i = n; i < give; i++) vals.push_back(rand_variant(r, dt));
             arg_class += ",dtype=" + dtype_name(dt);
+            if (!invalid) must_succeed = "C15.cell";
 #define WCOL(T) { std::vector<T> v; for (auto &x : vals) v.push_back(variant_get<T>(x)); if (by_index) df.writeColumn((unsigned) c, v, off, (give == n && r.chance(1, 2)) ? 0 : n); else df.writeColumn(m.cols[c].name, v, off, n); break; }
             switch (dt) {
                 case DataType::Int32: WCOL(int32_t) case DataType::UInt32: WCOL(uint32_t) case DataType::Int64: WCOL(int64_t)
@@ -285,6 +301,7 @@ int World::exec_frame(const Op &op) {
                 default: return 2;
             }
 #undef WCOL
+            must_succeed.clear();
             if (invalid) { frame.erase(id); return 0; }
             for (size_t i = 0; i < n; i++) m.cells[off + i][c] = variant_str(vals[i]);
             cnt.inc("frame.write_col");
